@@ -396,7 +396,11 @@ UNITS += [
 SATELLITES = [("C12", ["NodeAction", "ModifierChange", "ModifierAction", "TreeAction", "RewriteVisitor", "repair_index_check_pack"]),
               # the repacker hands stored blobs to the packer: what it declares about them (lengths, compression) ends up in the new
               # pack's header and index -- the units live in C02's spec (BlobCopier::copy / copy_fast, CopyPackBlobs)
-              ("C02", ["blob_constants", "BlobLocation", "BlobLocations", "from_blob_location", "can_coalesce", "append", "coalesce", "PackToDo", "RepackReason", "PackInfo", "PrunePack", "CopyPackBlobs", "RestorePackInfo", "FileLocation", "copy_pack_blobs_coalesce", "copy_fast", "copy_slow"])]
+              ("C02", ["blob_constants", "BlobLocation", "BlobLocations", "from_blob_location", "can_coalesce", "append", "coalesce", "PackToDo", "RepackReason", "PackInfo", "PrunePack", "CopyPackBlobs", "RestorePackInfo", "FileLocation", "copy_pack_blobs_coalesce", "copy_fast", "copy_slow"]),
+              # the writer side: a pack's index entry is handed on only after its bytes were stored under its id, and the status of the
+              # writer threads reaches the caller (units of C03's spec)
+              ("C03", ["ModifierChange", "file_writer_process", "actor_writer_status", "packer_writer_status", "packer_finalize", "actor_finalize"]),
+              ]
 
 KANI = [
     Harness("repofile::packfile::verif_kani::c08_bounded_header_sizes", kind="bounded",
